@@ -175,6 +175,20 @@ impl Check for C01 {
                     json!({"via": *g.pick(&["socks5", "socks5", "http"]), "up": up, "down": down, "wchunk": *g.pick(&[1u64, 100, 1_460, 8_192, 16_384, 70_000]), "tchunk": *g.pick(&[1u64, 512, 8_192, 8_193, 100_000]), "start_ms": *g.pick(&[0u64, 0, 1, 30])})
                 })
                 .collect();
+            // a consumer that stops reading: one tunnel's application, target or both never read what is sent to them
+            // (hundreds of KB pile up); every other tunnel must still be complete and exact
+            let mut tunnels = tunnels;
+            if nt >= 2 && g.chance(35) {
+                let k = g.range(0, nt - 1) as usize;
+                let which = *g.pick(&["app", "target", "both"]);
+                tunnels[k]["stall"] = json!(which);
+                if which != "target" {
+                    tunnels[k]["down"] = json!(*g.pick(&[100_000u64, 300_000]));
+                }
+                if which != "app" {
+                    tunnels[k]["up"] = json!(*g.pick(&[100_000u64, 300_000]));
+                }
+            }
             return json!({"net": net, "mode": "system", "tunnels": tunnels, "scheme": if g.chance(60) { DEFAULT_SCHEME.to_string() } else { gen_scheme_small(&mut g) }});
         }
         if idx % 10 == 9 {
@@ -313,7 +327,7 @@ impl Check for C01 {
         out
     }
     fn rule(&self) -> &'static str {
-        "one case = a seeded plan (1-6 streams, per direction 0-7 chunks with boundary-biased sizes 0..200000 submitted through write_data_frame / send_data / both, reader buffer sizes 1..70000, a padding scheme, transport and scheduler knobs) executed under the seeded scheduler; non-trivial = bytes were moved AND (a boundary-size or oversize or empty chunk is present OR fragmentation/deferral/yield perturbation is active); distinct = distinct (plan hash, task-poll-order fingerprint) pairs"
+        "(1 case in 20 is the whole system: 1-4 concurrent SOCKS5 / HTTP CONNECT tunnels over real rustls moving boundary-size byte streams both ways at once; in a third of those with two or more tunnels one tunnel's application, target or both stop reading while 100-300 KB are sent to them, and every other tunnel must still be complete and exact) one case = a seeded plan (1-6 streams, per direction 0-7 chunks with boundary-biased sizes 0..200000 submitted through write_data_frame / send_data / both, reader buffer sizes 1..70000, a padding scheme, transport and scheduler knobs) executed under the seeded scheduler; non-trivial = bytes were moved AND (a boundary-size or oversize or empty chunk is present OR fragmentation/deferral/yield perturbation is active); distinct = distinct (plan hash, task-poll-order fingerprint) pairs"
     }
     fn real_components(&self) -> Vec<&'static str> {
         vec!["Session (client+server): recv_loop, process_stream_data, write_frame, write_with_padding, handle_frame", "Stream", "StreamReader", "FrameCodec", "PaddingFactory"]
@@ -468,6 +482,12 @@ async fn run_system(plan: &Value) -> Outcome {
                     let want = t["up"].as_u64().unwrap_or(0) as usize;
                     let mut got = Vec::with_capacity(want);
                     let mut b = vec![0u8; 8192];
+                    if matches!(t["stall"].as_str(), Some("target") | Some("both")) {
+                        anytls_simnet::world::fault_fired("consumer.stops_reading");
+                        let _keep = r;
+                        let _ = wt.await;
+                        return;
+                    }
                     while got.len() < want {
                         match timeout(Duration::from_secs(120), r.read(&mut b)).await {
                             Ok(Ok(n)) if n > 0 => got.extend_from_slice(&b[..n]),
@@ -516,6 +536,13 @@ async fn run_system(plan: &Value) -> Outcome {
             let want = t["down"].as_u64().unwrap_or(0) as usize;
             let mut got = Vec::with_capacity(want);
             let mut b = vec![0u8; 8192];
+            if matches!(t["stall"].as_str(), Some("app") | Some("both")) {
+                anytls_simnet::world::fault_fired("consumer.stops_reading");
+                // the application keeps its connection and its writer but never reads; the siblings are given time
+                tokio::time::sleep(Duration::from_secs(100)).await;
+                let _keep = (r, wt);
+                return Ok(Vec::new());
+            }
             while got.len() < want {
                 match timeout(Duration::from_secs(120), r.read(&mut b)).await {
                     Ok(Ok(n)) if n > 0 => got.extend_from_slice(&b[..n]),
@@ -533,7 +560,9 @@ async fn run_system(plan: &Value) -> Outcome {
     for (i, a) in apps.into_iter().enumerate() {
         let want = content(0xD000 + i as u64, tunnels[i]["down"].as_u64().unwrap_or(0) as usize);
         moved += want.len();
+        let app_stalls = matches!(tunnels[i]["stall"].as_str(), Some("app") | Some("both"));
         match a.await {
+            Ok(Ok(_)) if app_stalls => {}
             Ok(Ok(got)) => {
                 if got != want {
                     let kind = if got.len() < want.len() && want.starts_with(&got) { "missing" } else if got.len() > want.len() && got.starts_with(&want) { "extra" } else { "content" };
@@ -550,6 +579,9 @@ async fn run_system(plan: &Value) -> Outcome {
         let want = content(0xA000 + i as u64, t["up"].as_u64().unwrap_or(0) as usize);
         moved += want.len();
         let got = res[i].clone().unwrap_or_default();
+        if matches!(t["stall"].as_str(), Some("target") | Some("both")) {
+            continue;
+        }
         if got != want && out.viols.len() < 4 {
             let kind = if got.len() < want.len() && want.starts_with(&got) { "missing" } else if got.len() > want.len() && got.starts_with(&want) { "extra" } else { "content" };
             out.viol(kind, format!("system:{}:up:{}", kind, t["via"].as_str().unwrap_or("")), format!("tunnel {} ({}): the application sent {} bytes in {}-byte writes, the target received {} (first difference at {:?})", i, t["via"], want.len(), t["wchunk"], got.len(), got.iter().zip(want.iter()).position(|(a, b)| a != b)));
